@@ -48,8 +48,12 @@ def search(seed=0, max_calls=6):
                             for fr in out["frames"]:
                                 if fr["n_updates"] - base != fr["step"] and where == "update":
                                     bad.append(dict(case, problem=f"frame {fr['step']} holds the state after {fr['n_updates'] - base:.0f} recorded updates"))
-                            if where == "update" and kind == "error" and out["error"] != "Stop":
-                                pass
+                            # an error raised by the update (e.g. "failed to converge") must come out of the run unchanged - unless the run ended first
+                            n_calls_made = len(out.get("calls", []))
+                            if where == "update" and kind == "error" and n_calls_made > at and out["error"] != "Stop":
+                                bad.append(dict(case, problem=f"the error raised by update call {at} did not propagate out of the run (run ended with {out['error']!r})"))
+                            if where == "update" and kind == "interrupt" and n_calls_made > at and out["error"] not in (None,):
+                                bad.append(dict(case, problem=f"a cancellation during update call {at} escaped as {out['error']!r} instead of ending the run"))
                             # cancellation during thermalisation must not be followed by a recorded stage
                             n_therm_calls = 3 if skip else 0
                             if where == "update" and kind == "interrupt" and skip and at < n_therm_calls and len(steps) > 0:
@@ -62,7 +66,7 @@ def replay(unit, obl):
     bad, n = search(0, 5)
     if bad:
         name = (obl or {}).get("name", "")
-        kw = ("distinct",) if "records_once" in name else ("temporary", "unexpected files") if ("leak" in name or "exit" in name or "enter" in name) else (("thermalisation",) if "thermalisation" in name or "cancel" in name else ())
+        kw = ("propagate",) if "propagates" in name else ("distinct",) if "records_once" in name else ("temporary", "unexpected files") if ("leak" in name or "exit" in name or "enter" in name) else (("thermalisation",) if "thermalisation" in name or "cancel" in name else ())
         pick = next((b for b in bad if any(w in b["problem"] for w in kw)), bad[0])
         return dict(confirmed=True, failing_input=pick, n_failing=len(bad), evaluations=n, tdgl_file=tdgl.__file__,
                     note="faults injected at every call index of short real runs (real h5py files)")
